@@ -345,29 +345,133 @@ func (s *Solver) CheckInt(asserts []*Term, timeoutMs int) (Result, string) {
 		os.WriteFile(fmt.Sprintf("%s/int-%d-%d.smt2", d, os.Getpid(), s.IntQueries), []byte(script+"(check-sat)\n"), 0o644)
 		s.IntQueries--
 	}
-	start := time.Now()
-	cmd := exec.Command("z3", "-smt2", fmt.Sprintf("-t:%d", timeoutMs), f.Name())
-	timer := time.AfterFunc(time.Duration(timeoutMs+5000)*time.Millisecond, func() { cmd.Process.Kill() })
-	out, _ := cmd.CombinedOutput()
-	timer.Stop()
-	s.Time += time.Since(start)
-	s.IntQueries++
-	txt := string(out)
-	if strings.Contains(txt, "(error") {
-		s.Errors++
-		if os.Getenv("SYMGO_DEBUGINT") != "" {
-			os.WriteFile("/tmp/int-error.smt2", []byte(script+"(check-sat)\n"), 0o644)
-			fmt.Fprintln(os.Stderr, "int-mode error:", txt)
-		}
-		return Unknown, "solver error"
+	chain := [][]string{{"z3", "-smt2", fmt.Sprintf("-t:%d", timeoutMs), f.Name()}}
+	if s.IntAlt {
+		// z3 4.8.12 is weak on div/mod by large constants; cvc5 and z3 5.x decide
+		// such scripts in well under a second where it times out
+		chain = [][]string{{"cvc5", fmt.Sprintf("--tlimit=%d", timeoutMs), f.Name()}, {"z3-new", "-smt2", fmt.Sprintf("-t:%d", timeoutMs), f.Name()}, chain[0]}
 	}
-	for _, l := range strings.Split(txt, "\n") {
-		switch strings.TrimSpace(l) {
-		case "sat":
-			return Sat, ""
-		case "unsat":
-			return Unsat, ""
+	s.IntQueries++
+	for _, alt := range chain {
+		start := time.Now()
+		cmd := exec.Command(alt[0], alt[1:]...)
+		timer := time.AfterFunc(time.Duration(timeoutMs+5000)*time.Millisecond, func() { cmd.Process.Kill() })
+		out, _ := cmd.CombinedOutput()
+		timer.Stop()
+		s.Time += time.Since(start)
+		txt := string(out)
+		if strings.Contains(txt, "(error") {
+			s.Errors++
+			if os.Getenv("SYMGO_DEBUGINT") != "" {
+				os.WriteFile("/tmp/int-error.smt2", []byte(script+"(check-sat)\n"), 0o644)
+				fmt.Fprintln(os.Stderr, "int-mode error:", alt[0], txt)
+			}
+			if !s.IntAlt {
+				return Unknown, "solver error"
+			}
+			continue
+		}
+		for _, l := range strings.Split(txt, "\n") {
+			switch strings.TrimSpace(l) {
+			case "sat":
+				return Sat, ""
+			case "unsat":
+				return Unsat, ""
+			}
 		}
 	}
 	return Unknown, "timeout"
+}
+
+// IntModel asks the integer back ends for a model of the conjunction (used for
+// counterexamples when the bit-vector solvers cannot decide the query). Only
+// variables that occur in the script get a value; the caller validates the
+// model by native replay.
+func (s *Solver) IntModel(asserts []*Term, vars []*Term, timeoutMs int) (Result, map[int]*big.Int) {
+	for _, t := range asserts {
+		wide := false
+		var chk func(t *Term)
+		seen := map[int]bool{}
+		chk = func(t *Term) {
+			if seen[t.ID] || wide {
+				return
+			}
+			seen[t.ID] = true
+			if t.W > 330 {
+				wide = true
+				return
+			}
+			if t.Op == OpUF {
+				if _, inj := injFamily(t.Name); inj {
+					wide = true
+					return
+				}
+			}
+			for _, a := range t.Args {
+				chk(a)
+			}
+		}
+		chk(t)
+		if wide {
+			return Unknown, nil
+		}
+	}
+	script, ok, _ := s.intScript(asserts)
+	if !ok {
+		return Unknown, nil
+	}
+	var names []string
+	var used []*Term
+	for _, v := range vars {
+		if v.Op == OpVar && strings.Contains(script, "(declare-const "+iname(v)+" ") {
+			names = append(names, iname(v))
+			used = append(used, v)
+		}
+	}
+	f, err := os.CreateTemp("", "symgo-intm-*.smt2")
+	if err != nil {
+		return Unknown, nil
+	}
+	defer os.Remove(f.Name())
+	f.WriteString("(set-option :produce-models true)\n" + script + "(check-sat)\n")
+	if len(names) > 0 {
+		f.WriteString("(get-value (" + strings.Join(names, " ") + "))\n")
+	}
+	f.Close()
+	for _, alt := range [][]string{{"cvc5", fmt.Sprintf("--tlimit=%d", timeoutMs), f.Name()}, {"z3-new", "-smt2", fmt.Sprintf("-t:%d", timeoutMs), f.Name()}} {
+		cmd := exec.Command(alt[0], alt[1:]...)
+		timer := time.AfterFunc(time.Duration(timeoutMs+5000)*time.Millisecond, func() { cmd.Process.Kill() })
+		out, _ := cmd.CombinedOutput()
+		timer.Stop()
+		txt := string(out)
+		lines := strings.SplitN(strings.TrimSpace(txt), "\n", 2)
+		switch strings.TrimSpace(lines[0]) {
+		case "unsat":
+			return Unsat, nil
+		case "sat":
+			res := map[int]*big.Int{}
+			if len(lines) > 1 {
+				rest := lines[1]
+				for _, v := range used {
+					nm := iname(v)
+					i := strings.Index(rest, "("+nm+" ")
+					if i < 0 {
+						continue
+					}
+					j := i + len(nm) + 2
+					k := j
+					for k < len(rest) && rest[k] >= '0' && rest[k] <= '9' {
+						k++
+					}
+					if k > j {
+						if n, ok := new(big.Int).SetString(rest[j:k], 10); ok {
+							res[v.ID] = n
+						}
+					}
+				}
+			}
+			return Sat, res
+		}
+	}
+	return Unknown, nil
 }
